@@ -129,7 +129,7 @@ def oracle(run):
         if wa > B and not any(f["clause"] == "C05.accept_latency" for f in fs):
             op = run.masters[pi].ops[k]
             rk, bk, rw, col = am.decode(op["addr"])
-            key = classify_wait(cfg, run.stim, pi, k, rk * nb + bk, to, min(a_end, to + B + 50), backend=getattr(run, "backend", "fast"))
+            key = classify_wait(cfg, run.stim, pi, k, rk * nb + bk, to, min(a_end, to + B + 50), backend="fast")
             if key == "other":
                 # the crossbar does not let a port request a second bank while commands it has in another bank's queue are still waiting for
                 # their data phase (that is how data phases stay in command order): if earlier commands of this port were outstanding during
@@ -137,7 +137,7 @@ def oracle(run):
                 w_end = min(a_end, to + B + 50)
                 if any(p2 == pi and k2 < k and ta2 is not None and ta2 <= to + 2 and (td2 is None or td2 >= w_end) for (p2, k2, to2, ta2, td2) in lat):
                     key = "own_queue_full"
-            fs.append(dict(clause="C05.accept_latency", key=key,
+            fs.append(dict(clause="C05.accept_latency", key=key, t_decide=to + B + 60,
                            what="port %d op %d (%s rank %d bank %d) offered at cycle %d, %s after %d cycles > bound %d [%s]" % (
                                pi, k, "WR" if op["we"] else "RD", rk, bk, to, "accepted" if ta is not None else "still not accepted", wa, B, key)))
         if ta is not None:
@@ -147,8 +147,8 @@ def oracle(run):
             if wd > B and not any(f["clause"] == "C05.data_latency" for f in fs):
                 op = run.masters[pi].ops[k]
                 rk, bk, rw, col = am.decode(op["addr"])
-                key = classify_data_wait(cfg, run.stim, rk * nb + bk, op["we"], ta, min(d_end, ta + B + 50), backend=getattr(run, "backend", "fast"))
-                fs.append(dict(clause="C05.data_latency", key=key, what="[" + key + "] " + "port %d op %d (%s addr 0x%x) accepted at cycle %d, data phase %s after %d cycles > bound %d" % (
+                key = classify_data_wait(cfg, run.stim, rk * nb + bk, op["we"], ta, min(d_end, ta + B + 50), backend="fast")
+                fs.append(dict(clause="C05.data_latency", key=key, t_decide=ta + B + 60, what="[" + key + "] " + "port %d op %d (%s addr 0x%x) accepted at cycle %d, data phase %s after %d cycles > bound %d" % (
                     pi, k, "WR" if op["we"] else "RD", op["addr"], ta, "done" if td is not None else "still missing", wd, B)))
     if any(f["clause"] == "C05.data_latency" for f in fs):
         fs = [f for f in fs if not (f["clause"] == "C05.accept_latency" and f["key"] == "own_queue_full")]
@@ -292,6 +292,15 @@ def stim_strategy(cfg, tier):
 
 def run_kwargs(cfg, stim):
     return dict(max_cycles=stim["span"] + 2 * bound(cfg) + 1500)
+
+
+def confirm_kwargs(cfg, stim, fs):
+    """the stock simulator only has to run until the reported latency has crossed the bound (it is 50-100 x slower than the compiled one);
+    the signature labels of the listed findings are always computed on the compiled simulator (differentially self-tested)"""
+    td = [f["t_decide"] for f in fs if f.get("t_decide")]
+    if td and all(f.get("t_decide") for f in fs):
+        return dict(max_cycles=max(td) + 20, tail=10**9)
+    return {}
 
 
 def stats(run, col):
